@@ -13,7 +13,7 @@ the fabric table (`Fabrics.fabrics`: fabric index, ACL, group table) is changed 
 * `dm/clusters/acl.rs`: `AclHandler::set_acl(fabric, value)` (Replace / Add / Update / Remove);
 * `fabric.rs`, `Groups`: `add`, `remove` (one group / all groups), `groupcast_join`,
   `groupcast_remove`, `set_has_aux_acl`;
-* `fabric.rs`, `Fabrics`: `add_with_post_init`, `remove`, `load_persist`, `add_load` (as used by
+* `fabric.rs`, `Fabrics`: `add_with_post_init`, `remove`, `reset_persist`, `load_persist`, `add_load` (as used by
   the fail-safe roll-back: `remove` if present, then `add_load`), and `FabricPersist::{store, remove}`
   with the `Privilege` ↔ `AccessControlEntryPrivilegeEnum` conversion a stored entry goes through
   (`dm/types/privilege.rs`);
@@ -450,6 +450,9 @@ def Cfg.reload (c : Cfg) (i : Nat) : Cfg × Res :=
   | .error e => ({ c with fabrics := fabrics1 }, .err e)
   | .ok fs => ({ c with fabrics := fs }, .ok)
 
+/-- `Fabrics::reset_persist(store)`: the table is cleared and every fabric key removed -/
+def Cfg.resetPersist (_c : Cfg) : Cfg × Res := ({ fabrics := [], store := [] }, .ok)
+
 /-! ## the operations, as data -/
 
 inductive CfgOp
@@ -473,6 +476,7 @@ inductive CfgOp
   | persistRemove (i : Nat)
   | loadPersist
   | reload (i : Nat)
+  | resetPersist
 deriving Repr, Inhabited
 
 def resOfExcept {α : Type} (f : α → Res) : Except CfgErr α → Res
@@ -506,6 +510,7 @@ def CfgOp.apply (c : Cfg) : CfgOp → Cfg × Res
   | .persistRemove i => c.persistRemove i
   | .loadPersist => c.loadPersist
   | .reload i => c.reload i
+  | .resetPersist => c.resetPersist
 
 /-- the configuration a history of operations leads to, from the empty table and the empty store -/
 def runOps (ops : List CfgOp) : Cfg := ops.foldl (fun c o => (o.apply c).1) {}
